@@ -1050,7 +1050,10 @@ def sf_old(ex, st, e):
     old = st.ghost.get("__old__")
     if old is None:
         raise SpecError("old() outside a postcondition")
-    s2 = State(env=st.env, pc=st.pc, heap=old.heap, ghost=st.ghost)
+    g2 = dict(st.ghost)
+    if "fs" in old.ghost:
+        g2["fs"] = old.ghost["fs"]       # old(fs): the file system at entry
+    s2 = State(env=st.env, pc=st.pc, heap=old.heap, ghost=g2)
     v = ex.ev1(e.args[0], s2)
     if isinstance(v, Ref):
         # keep pointing at the old snapshot: copy it into the current heap under a new address
